@@ -72,6 +72,10 @@ def run_case(case):
         if case["big"]:
             init["big"] = "B" * (1 << 20)
         model = {b(k): b(v) for k, v in init.items()}
+        if case["seed"] % 4 == 1:
+            # DataFrame.attrs travel in the same key-value list (key PANDAS_ATTRS): they must not displace the user's keys
+            df.attrs = {"source": "unit é", "n": 3}
+            counters["frames_with_attrs"] = 1
         kw = {"custom_metadata": dict(init), "row_group_offsets": max(1, n // case["nrg"])}
         if target == "data":
             fastparquet.write(path, df, **kw)
@@ -81,7 +85,7 @@ def run_case(case):
             fpath = os.path.join(path, "_metadata")
         # ---- write-time metadata verbatim
         pf = fastparquet.ParquetFile(path)
-        got = {b(k): b(v) for k, v in pf.key_value_metadata.items() if b(k) != b"pandas"}
+        got = {b(k): b(v) for k, v in pf.key_value_metadata.items() if b(k) not in (b"pandas", b"PANDAS_ATTRS")}
         if got != model:
             res["failures"].append({"kind": "write_time_metadata_not_verbatim", "missing": [k.decode("utf8", "replace")[:20] for k in set(model) - set(got)][:4],
                                     "extra": [k.decode("utf8", "replace")[:20] for k in set(got) - set(model)][:4],
@@ -182,6 +186,10 @@ def run_case(case):
             if got.get(b"pandas") != pand0:
                 res["failures"].append({"kind": "pandas_metadata_changed", **ctx})
             got.pop(b"pandas", None)
+            attrs0 = {e.get("key"): e.get("value") for e in (info0.meta.get("key_value_metadata") or [])}.get(b"PANDAS_ATTRS")
+            if got.get(b"PANDAS_ATTRS") != attrs0:
+                res["failures"].append({"kind": "frame_attrs_entry_changed", **ctx})
+            got.pop(b"PANDAS_ATTRS", None)
             if got != model:
                 res["failures"].append({"kind": "key_value_set_differs_from_model", "update": {str(k): (None if v is None else len(v)) for k, v in upd.items()},
                                         "missing": [k.decode("utf8", "replace")[:20] for k in set(model) - set(got)][:4],
@@ -190,7 +198,7 @@ def run_case(case):
             # the library's own view
             try:
                 pf2 = fastparquet.ParquetFile(path)
-                api = {b(k): b(v) for k, v in pf2.key_value_metadata.items() if b(k) != b"pandas"}
+                api = {b(k): b(v) for k, v in pf2.key_value_metadata.items() if b(k) not in (b"pandas", b"PANDAS_ATTRS")}
                 if api != model:
                     res["failures"].append({"kind": "api_key_value_metadata_differs_from_model", **ctx})
                 # the view decodes what is valid UTF-8 to str - also the empty string
@@ -238,4 +246,4 @@ def coverage_extra(agg):
 
 
 def required(tier):
-    return {"updates_verified": 300, "deltaclass:-1..-7": 15, "deltaclass:<=-8": 15, "deltaclass:+1..+7": 15, "deltaclass:>=+8": 15, "deltaclass:0": 5, "multi_key_removals": 10}
+    return {"updates_verified": 300, "deltaclass:-1..-7": 15, "deltaclass:<=-8": 15, "deltaclass:+1..+7": 15, "deltaclass:>=+8": 15, "deltaclass:0": 5, "multi_key_removals": 10, "frames_with_attrs": 20}
